@@ -286,6 +286,47 @@ def float_companion(rep, prop, tier, seed):
     rep.notes['float_scenarios'] = n
 
 
+def empty_hierarchy(rep):
+    """C03 'including when there are no processes at all': an engine over a
+    composite that holds nothing, and an engine whose only process deletes every
+    node of the hierarchy, itself included: every call returns at start + interval."""
+    from vivarium.core.engine import Engine
+    from vivarium.core.process import Process
+    from vivarium.core.composer import Composite
+
+    class Eraser(Process):
+        defaults = {'time_step': 1}
+
+        def ports_schema(self):
+            return {'root': {'_output': True}, 'x': {'v': {'_default': 1, '_emit': True}}}
+
+        def next_update(self, timestep, states):
+            return {'root': {'_delete': ['eraser', 'x']}}
+    for name in ('empty composite', 'everything deleted'):
+        rep.evaluations += 1
+        sig = {'kind': 'empty-hierarchy', 'case': name}
+        try:
+            if name == 'empty composite':
+                eng = Engine(composite=Composite(), display_info=False)
+            else:
+                eng = Engine(processes={'eraser': Eraser()},
+                             topology={'eraser': {'root': (), 'x': ('x',)}},
+                             display_info=False)
+                eng.update(1)
+            t0 = eng.global_time
+            eng.run_for(3)
+            eng.update(2)
+            got = eng.global_time
+        except Exception as e:
+            rep.violation(sig, 'C03 an engine over a hierarchy without processes (%s) raised %r'
+                          % (name, e), {})
+            continue
+        if got != t0 + 5:
+            rep.violation(sig, 'C03 an engine over a hierarchy without processes (%s): '
+                          'run_for(3); update(2) from %r returned at %r' % (name, t0, got), {})
+    rep.nontrivial.add('empty-hierarchy')
+
+
 def rows_with_units(rep):
     """C12, last clause of the first sentence: rows hold the values 'units and
     custom serializers applied'.  One engine whose variables are a quantity with
@@ -669,6 +710,8 @@ def check(prop, tier, seed):
                       what='colliding port variables')
         if prop == 'C05':
             cyclic_flows(rep)
+        if prop == 'C03':
+            rep.guard(empty_hierarchy, rep, what='a hierarchy without processes')
         if prop == 'C12':
             rep.guard(rows_with_units, rep, what='rows with units and serializers')
             rep.guard(chunked_rows, rep, scratch, what='chunked rows')
